@@ -19,7 +19,8 @@ def setup(ctx):
         "{plain parameter, assignment-defined parameter, variable, time, the other derived}, one declaration order per labelled graph cycling through all six (thorough: all six each) "
         "(thorough: 4 derived, sampled 60000 of 28^4); (b) random contents biased to initial assignments on variables and "
         "parameters chained through derived quantities, rates, surrogates and each other; observed: initial conditions, "
-        "Simulator(model).y0, derived-parameter/variable names, get_args at states != initial state and times != 0. "
+        "Simulator(model).y0, derived-parameter/variable names, get_args at states != initial state and times != 0; "
+        "(c) the same after make_variable_static / make_parameter_dynamic through the API (assignment-defined values keep their kind). "
         "distinct = distinct (content, queries); non-trivial = has an initial assignment or a derived quantity"
     )
     ctx.assumptions += ["Simulator.__init__ beyond reading model.get_initial_conditions() is not modelled"]
@@ -86,6 +87,8 @@ def judge_case(ctx, case, R, M, S):
         _tally(ctx, q, R[i])
         # a query is judged together with everything asked before it (the history matters)
         sub = {"content": c, "queries": case["queries"][: (i % nq) + 1], "decl_seed": case.get("decl_seed", 0)}
+        if case.get("pre_edit"):
+            sub["pre_edit"] = case["pre_edit"]
         if i >= nq:
             sub["edit"] = case["edit"]
         ctx.judge(sub, R[i], S[i], None if M is None else M[i],
@@ -116,6 +119,33 @@ def gen_random(ctx):
         ed = cc.gen_edit(rng, content)
         if ed:
             case["edit"] = ed
+    return case
+
+
+def gen_mutated(ctx):
+    """a variable made static / a parameter made dynamic through the API before anything is asked: an
+    assignment-defined variable must come back as a parameter resolved once at t = 0 (not re-evaluated from the
+    state), an assignment-defined parameter as a variable whose initial value is resolved at t = 0"""
+    rng = ctx.rng
+    while True:
+        content = C.gen_content(rng, p_ia=0.9, n_vars=(2, 5), n_pars=(1, 4), n_comps=(3, 9), p_time=0.3)
+        ia_vars = [k for k, v in content["vars"] if "ia" in v]
+        ia_pars = [k for k, v in content["pars"] if "ia" in v]
+        if ia_vars or ia_pars:
+            break
+    ops = []
+    if ia_vars and (not ia_pars or rng.random() < 0.6):
+        ops.append(["make_variable_static", rng.choice(ia_vars if rng.random() < 0.8 else [k for k, _ in content["vars"]]), None])
+    else:
+        ops.append(["make_parameter_dynamic", rng.choice(ia_pars if rng.random() < 0.8 else [k for k, _ in content["pars"]]), None])
+    case = {"content": content, "pre_edit": ops, "decl_seed": rng.randrange(1 << 30), "shape": "mut:" + ops[0][0]}
+    eff = cc.effective_content(case)
+    qs = [["init"], ["classes"], ["pvals"], ["args", None, "0"]]
+    for _ in range(2):
+        st = C.gen_state(rng, eff, vals=(0, 1, 2, 4, 7))
+        t = str(rng.choice([1, 2, 3, "1/2"]))
+        qs += [["args", st, t], ["rhs", st, t], ["stoich", st, t]]
+    case["queries"] = qs
     return case
 
 
@@ -159,6 +189,7 @@ def run(ctx):
         cases = [gen_random(ctx) for _ in range(min(250, n - done))]
         run_batch(ctx, cases)
         done += len(cases)
+    run_batch(ctx, [gen_mutated(ctx) for _ in range(ctx.n(300, 6000))])
 
 
 def replay(ctx, rp):
